@@ -335,6 +335,7 @@ int main(int argc, char **argv)
   mode = (int)mc_opt.param[0];
   if (mode == 0) {
     int depth = mc_opt.param[1] ? (int)mc_opt.param[1] : 3;
+    e2_val[1] = "  \"q r";      /* blanks, then a quote sign: the extended getter trims and treats a leading quote specially */
     bfs_nstarts = 8; bfs_nops = e2_nsec * e2_nkey * e2_nval;
     if (mc_opt.case_id) {
       bfs_hist h; bfs_parse_id(mc_opt.case_id, &h);
